@@ -75,6 +75,45 @@ fn b64d(s: &str) -> Result<Vec<u8>, String> {
     Ok(out)
 }
 
+// ------------------------------------------------------------------------------------------
+// EXTENSIONS (C05/C14/C15): CRC-32 (IEEE, as Python's zlib.crc32) and the generated-body pattern
+// ------------------------------------------------------------------------------------------
+fn crc32_update(mut crc: u32, data: &[u8]) -> u32 {
+    static TABLE: std::sync::OnceLock<[u32; 256]> = std::sync::OnceLock::new();
+    let table = TABLE.get_or_init(|| {
+        let mut t = [0u32; 256];
+        for i in 0..256u32 {
+            let mut c = i;
+            for _ in 0..8 {
+                c = if c & 1 != 0 { 0xEDB8_8320 ^ (c >> 1) } else { c >> 1 };
+            }
+            t[i as usize] = c;
+        }
+        t
+    });
+    crc = !crc;
+    for &b in data {
+        crc = table[((crc ^ b as u32) & 0xff) as usize] ^ (crc >> 8);
+    }
+    !crc
+}
+
+/// byte i of a generated body: ((i mod 251) + seed) mod 256  (period 251, so every chunk size sees
+/// every phase; tools/e2e.py gen_body_bytes is the same function)
+fn pattern_fill(out: &mut Vec<u8>, start: u64, len: usize, seed: u64) {
+    out.clear();
+    out.reserve(len);
+    let mut ph = (start % 251) as u32;
+    let sd = (seed % 256) as u32;
+    for _ in 0..len {
+        out.push(((ph + sd) & 0xff) as u8);
+        ph += 1;
+        if ph == 251 {
+            ph = 0;
+        }
+    }
+}
+
 fn bytes_field(v: &Value, name: &str) -> Result<Option<Vec<u8>>, String> {
     // `<name>_b64` (base64) or `<name>` (plain text) -- base64 wins
     if let Some(s) = v.get(format!("{}_b64", name)).and_then(|x| x.as_str()) {
@@ -160,6 +199,9 @@ struct UpConn {
     requests: Vec<(usize, usize, usize)>, // (start, end of head, end of body) offsets into bytes
     replies: usize,
     closed: bool,
+    // EXTENSIONS: streaming mode (scenario "upstream_capture")
+    total: usize,            // all bytes received (== bytes.len() unless capped)
+    infos: Vec<Value>,       // per complete request: body_len, body_crc32, chunked, head_len
 }
 
 struct ScenarioRec {
@@ -167,6 +209,7 @@ struct ScenarioRec {
     replies: Mutex<HashMap<String, Vec<(Value, bool)>>>, // host -> [(spec, consumed)]
     default_reply: Value,
     notify: Notify,
+    capture: Option<usize>, // EXTENSIONS: Some(n) = streaming mock, keep the first n bytes per connection
 }
 
 static CURRENT: Mutex<Option<Arc<ScenarioRec>>> = Mutex::new(None);
@@ -275,6 +318,14 @@ async fn mock_conn(mut stream: TcpStream, host: String, peer_port: u16) {
         conns.len() - 1
     };
     rec.notify.notify_waiters();
+    if let Some(cap) = rec.capture {
+        mock_conn_streaming(&mut stream, &rec, ix, &host, cap).await;
+        let _ = stream.shutdown().await;
+        drop(stream);
+        rec.conns.lock().unwrap()[ix].closed = true;
+        rec.notify.notify_waiters();
+        return;
+    }
     let mut buf: Vec<u8> = Vec::new();
     let mut pos = 0usize;
     let mut tmp = vec![0u8; 65536];
@@ -284,7 +335,11 @@ async fn mock_conn(mut stream: TcpStream, host: String, peer_port: u16) {
             Ok(n) => n,
         };
         buf.extend_from_slice(&tmp[..n]);
-        rec.conns.lock().unwrap()[ix].bytes.extend_from_slice(&tmp[..n]);
+        {
+            let mut conns = rec.conns.lock().unwrap();
+            conns[ix].bytes.extend_from_slice(&tmp[..n]);
+            conns[ix].total += n;
+        }
         loop {
             let head = match parse_head(&buf, pos) {
                 Some(h) => h,
@@ -313,7 +368,7 @@ async fn mock_conn(mut stream: TcpStream, host: String, peer_port: u16) {
             }
             let is_head = head.first_line.starts_with("HEAD ");
             let reply = build_reply(&spec, is_head);
-            if stream.write_all(&reply).await.is_err() {
+            if !write_segmented(&mut stream, &reply, &spec).await {
                 break 'outer;
             }
             let _ = stream.flush().await;
@@ -327,6 +382,219 @@ async fn mock_conn(mut stream: TcpStream, host: String, peer_port: u16) {
     drop(stream);
     rec.conns.lock().unwrap()[ix].closed = true;
     rec.notify.notify_waiters();
+}
+
+/// EXTENSIONS: write `data` in the TCP write sizes given by spec["write_sizes"] (last size repeats; a
+/// flush and a pause of spec["write_pause_ms"] (default 1) between writes); one write when absent
+async fn write_segmented<W: tokio::io::AsyncWrite + Unpin>(w: &mut W, data: &[u8], spec: &Value) -> bool {
+    let sizes = match spec.get("write_sizes").and_then(|x| x.as_array()) {
+        Some(a) if !a.is_empty() => a,
+        _ => return w.write_all(data).await.is_ok(),
+    };
+    let pause = spec.get("write_pause_ms").and_then(|x| x.as_u64()).unwrap_or(1);
+    let mut pos = 0usize;
+    let mut i = 0usize;
+    while pos < data.len() {
+        let want = sizes[i.min(sizes.len() - 1)].as_u64().unwrap_or(1).max(1) as usize;
+        let n = want.min(data.len() - pos);
+        if w.write_all(&data[pos..pos + n]).await.is_err() {
+            return false;
+        }
+        let _ = w.flush().await;
+        pos += n;
+        i += 1;
+        if pos < data.len() {
+            if pause > 0 {
+                tokio::time::sleep(Duration::from_millis(pause)).await;
+            } else {
+                tokio::task::yield_now().await;
+            }
+        }
+    }
+    true
+}
+
+/// EXTENSIONS: incremental request parser for the streaming mock (scenario "upstream_capture")
+enum PState {
+    Head,
+    Cl(usize),
+    ChSize,
+    ChData(usize),
+    ChDataEnd(u8),
+    ChTrailer,
+}
+
+struct SParser {
+    state: PState,
+    hbuf: Vec<u8>,
+    line: Vec<u8>,
+    body_len: u64,
+    crc: u32,
+    chunked: bool,
+    chunks: u64,
+    offset: usize, // stream offset of the next byte to be consumed
+    start: usize,
+    head_end: usize,
+}
+
+struct SDone {
+    start: usize,
+    head_end: usize,
+    end: usize,
+    head: Vec<u8>,
+    body_len: u64,
+    crc: u32,
+    chunked: bool,
+    chunks: u64,
+}
+
+impl SParser {
+    fn new() -> Self {
+        SParser { state: PState::Head, hbuf: Vec::new(), line: Vec::new(), body_len: 0, crc: 0, chunked: false, chunks: 0,
+                  offset: 0, start: 0, head_end: 0 }
+    }
+    fn finish(&mut self) -> SDone {
+        let d = SDone { start: self.start, head_end: self.head_end, end: self.offset, head: std::mem::take(&mut self.hbuf),
+                        body_len: self.body_len, crc: self.crc, chunked: self.chunked, chunks: self.chunks };
+        self.state = PState::Head;
+        self.body_len = 0;
+        self.crc = 0;
+        self.chunked = false;
+        self.chunks = 0;
+        self.line.clear();
+        d
+    }
+    /// consume from data[*pos..] until one request is complete (Some) or the data is used up (None)
+    fn feed(&mut self, data: &[u8], pos: &mut usize) -> Option<SDone> {
+        while *pos < data.len() {
+            match self.state {
+                PState::Head => {
+                    if self.hbuf.is_empty() {
+                        self.start = self.offset;
+                    }
+                    self.hbuf.push(data[*pos]);
+                    *pos += 1;
+                    self.offset += 1;
+                    if self.hbuf.ends_with(b"\r\n\r\n") {
+                        self.head_end = self.offset;
+                        let head = parse_head(&self.hbuf, 0);
+                        let (cl, ch) = head.map(|h| (h.content_length.unwrap_or(0), h.chunked)).unwrap_or((0, false));
+                        self.chunked = ch;
+                        if ch {
+                            self.state = PState::ChSize;
+                        } else if cl > 0 {
+                            self.state = PState::Cl(cl);
+                        } else {
+                            return Some(self.finish());
+                        }
+                    }
+                }
+                PState::Cl(rem) | PState::ChData(rem) => {
+                    let n = rem.min(data.len() - *pos);
+                    self.crc = crc32_update(self.crc, &data[*pos..*pos + n]);
+                    self.body_len += n as u64;
+                    *pos += n;
+                    self.offset += n;
+                    let left = rem - n;
+                    let was_cl = matches!(self.state, PState::Cl(_));
+                    if left == 0 {
+                        if was_cl {
+                            return Some(self.finish());
+                        }
+                        self.state = PState::ChDataEnd(2);
+                    } else if was_cl {
+                        self.state = PState::Cl(left);
+                    } else {
+                        self.state = PState::ChData(left);
+                    }
+                }
+                PState::ChDataEnd(k) => {
+                    *pos += 1;
+                    self.offset += 1;
+                    self.state = if k <= 1 { PState::ChSize } else { PState::ChDataEnd(k - 1) };
+                }
+                PState::ChSize => {
+                    let b = data[*pos];
+                    *pos += 1;
+                    self.offset += 1;
+                    if b == b'\n' {
+                        let txt = String::from_utf8_lossy(&self.line).to_string();
+                        let size = usize::from_str_radix(txt.split(';').next().unwrap_or("").trim(), 16).unwrap_or(0);
+                        self.line.clear();
+                        if size == 0 {
+                            self.state = PState::ChTrailer;
+                        } else {
+                            self.chunks += 1;
+                            self.state = PState::ChData(size);
+                        }
+                    } else {
+                        self.line.push(b);
+                    }
+                }
+                PState::ChTrailer => {
+                    let b = data[*pos];
+                    *pos += 1;
+                    self.offset += 1;
+                    if b == b'\n' {
+                        let empty = self.line.iter().all(|c| *c == b'\r');
+                        self.line.clear();
+                        if empty {
+                            return Some(self.finish());
+                        }
+                    } else {
+                        self.line.push(b);
+                    }
+                }
+            }
+        }
+        None
+    }
+}
+
+async fn mock_conn_streaming(stream: &mut TcpStream, rec: &Arc<ScenarioRec>, ix: usize, host: &str, cap: usize) {
+    let mut parser = SParser::new();
+    let mut tmp = vec![0u8; 1 << 18];
+    'outer: loop {
+        let n = match stream.read(&mut tmp).await {
+            Ok(0) | Err(_) => break,
+            Ok(n) => n,
+        };
+        {
+            let mut conns = rec.conns.lock().unwrap();
+            let c = &mut conns[ix];
+            if c.bytes.len() < cap {
+                let k = (cap - c.bytes.len()).min(n);
+                c.bytes.extend_from_slice(&tmp[..k]);
+            }
+            c.total += n;
+        }
+        let mut pos = 0usize;
+        while let Some(done) = parser.feed(&tmp[..n], &mut pos) {
+            {
+                let mut conns = rec.conns.lock().unwrap();
+                conns[ix].requests.push((done.start, done.head_end, done.end));
+                conns[ix].infos.push(json!({"start": done.start, "head_end": done.head_end, "end": done.end,
+                    "head_b64": b64e(&done.head), "body_len": done.body_len, "body_crc32": done.crc,
+                    "chunked": done.chunked, "chunks": done.chunks}));
+            }
+            let spec = choose_reply(rec, host, &done.head);
+            if let Some(ms) = spec.get("delay_ms").and_then(|x| x.as_u64()) {
+                tokio::time::sleep(Duration::from_millis(ms)).await;
+            }
+            if spec.get("close_without_reply").and_then(|x| x.as_bool()).unwrap_or(false) {
+                break 'outer;
+            }
+            let reply = build_reply(&spec, done.head.starts_with(b"HEAD "));
+            if !write_segmented(stream, &reply, &spec).await {
+                break 'outer;
+            }
+            let _ = stream.flush().await;
+            rec.conns.lock().unwrap()[ix].replies += 1;
+            if spec.get("close").and_then(|x| x.as_bool()).unwrap_or(false) {
+                break 'outer;
+            }
+        }
+    }
 }
 
 async fn mock_listener(listener: TcpListener, host: String) {
@@ -496,7 +764,7 @@ async fn run_ops(ops: Option<&Value>, shared: &SharedState, env: &Env, snaps: &M
 // ------------------------------------------------------------------------------------------
 /// read one complete HTTP response (skipping 1xx interim ones) from `stream`; `buf` carries
 /// bytes already read beyond the previous message
-async fn read_response(stream: &mut TcpStream, buf: &mut Vec<u8>, head_request: bool, timeout: Duration) -> Value {
+async fn read_response<R: tokio::io::AsyncRead + Unpin>(stream: &mut R, buf: &mut Vec<u8>, head_request: bool, timeout: Duration) -> Value {
     let mut tmp = vec![0u8; 65536];
     let mut start = 0usize; // start of the current (possibly interim) message inside buf
     let mut eof = false;
@@ -541,6 +809,97 @@ async fn read_response(stream: &mut TcpStream, buf: &mut Vec<u8>, head_request: 
             Ok(Ok(n)) => buf.extend_from_slice(&tmp[..n]),
         }
     }
+}
+
+/// EXTENSIONS: one request written piecewise WHILE the response is being read (so that an early
+/// answer -- 413 before the body is consumed -- is seen even when the proxy then resets the
+/// connection).  `raw` is written first (in spec["write_sizes"] pieces when given), then the body
+/// described by spec["gen_body"] = {len, seed, chunk_sizes: [..]|null}: `len` pattern bytes
+/// (pattern_fill), either plain or chunk-encoded with the given sizes (last size repeats).
+/// Writing stops as soon as a complete response has been read.
+async fn exchange_streaming(stream: &mut TcpStream, buf: &mut Vec<u8>, raw: &[u8], spec: &Value, head_request: bool,
+                            timeout: Duration) -> Value {
+    let (mut rd, mut wr) = stream.split();
+    let written = std::sync::atomic::AtomicU64::new(0);
+    let writer = async {
+        if !write_segmented(&mut wr, raw, spec).await {
+            return Some("write error while sending the head".to_string());
+        }
+        let g = match spec.get("gen_body") {
+            Some(g) if g.is_object() => g,
+            _ => {
+                let _ = wr.flush().await;
+                return None;
+            }
+        };
+        let len = g.get("len").and_then(|x| x.as_u64()).unwrap_or(0);
+        let seed = g.get("seed").and_then(|x| x.as_u64()).unwrap_or(0);
+        let chunk_sizes: Option<Vec<u64>> = g.get("chunk_sizes").and_then(|x| x.as_array())
+            .map(|a| a.iter().map(|n| n.as_u64().unwrap_or(1).max(1)).collect());
+        let block: usize = 1 << 16;
+        let mut tmp: Vec<u8> = Vec::new();
+        let mut sent: u64 = 0;
+        match chunk_sizes {
+            None => {
+                while sent < len {
+                    let n = (len - sent).min(block as u64) as usize;
+                    pattern_fill(&mut tmp, sent, n, seed);
+                    if let Err(e) = wr.write_all(&tmp).await {
+                        return Some(format!("write error after {} body bytes: {}", sent, e));
+                    }
+                    sent += n as u64;
+                    written.store(sent, Ordering::SeqCst);
+                }
+            }
+            Some(sizes) => {
+                let mut i = 0usize;
+                while sent < len {
+                    let cs = if sizes.is_empty() { len } else { sizes[i.min(sizes.len() - 1)] }.min(len - sent);
+                    i += 1;
+                    if let Err(e) = wr.write_all(format!("{:x}\r\n", cs).as_bytes()).await {
+                        return Some(format!("write error after {} body bytes: {}", sent, e));
+                    }
+                    let mut left = cs;
+                    while left > 0 {
+                        let n = left.min(block as u64) as usize;
+                        pattern_fill(&mut tmp, sent, n, seed);
+                        if let Err(e) = wr.write_all(&tmp).await {
+                            return Some(format!("write error after {} body bytes: {}", sent, e));
+                        }
+                        sent += n as u64;
+                        left -= n as u64;
+                        written.store(sent, Ordering::SeqCst);
+                    }
+                    if let Err(e) = wr.write_all(b"\r\n").await {
+                        return Some(format!("write error after {} body bytes: {}", sent, e));
+                    }
+                    let _ = wr.flush().await;
+                }
+                if let Err(e) = wr.write_all(b"0\r\n\r\n").await {
+                    return Some(format!("write error after {} body bytes: {}", sent, e));
+                }
+            }
+        }
+        let _ = wr.flush().await;
+        None
+    };
+    let reader = read_response(&mut rd, buf, head_request, timeout);
+    tokio::pin!(writer);
+    tokio::pin!(reader);
+    let mut wres: Option<Option<String>> = None;
+    let mut resp = loop {
+        tokio::select! {
+            biased;
+            r = &mut reader => break r,
+            w = &mut writer, if wres.is_none() => wres = Some(w),
+        }
+    };
+    resp["write_completed"] = json!(matches!(wres, Some(None)));
+    if let Some(Some(e)) = wres {
+        resp["write_error"] = json!(e);
+    }
+    resp["sent_body"] = json!(written.load(Ordering::SeqCst));
+    resp
 }
 
 async fn connect_from(local_port: u16, proxy_port: u16) -> Result<(TcpSocket, u16), String> {
@@ -669,6 +1028,19 @@ async fn run_connection(
             }
             let t = reqs[i].get("timeout_ms").and_then(|x| x.as_u64()).map(Duration::from_millis).unwrap_or(timeout);
             // optional split write: send the first `split_at` bytes, pause, then the rest
+            if reqs[i].get("gen_body").map(|g| g.is_object()).unwrap_or(false) || reqs[i].get("write_sizes").is_some() {
+                let resp = exchange_streaming(&mut stream, &mut buf, b, &reqs[i], b.starts_with(b"HEAD "), t).await;
+                let done = resp["complete"] != json!(true);
+                responses.push(resp);
+                if let Err(e) = run_ops(reqs[i].get("ops_after"), &shared, &env, &snaps).await {
+                    out["error"] = json!(e);
+                    break;
+                }
+                if done {
+                    break;
+                }
+                continue;
+            }
             let split = reqs[i].get("split_at").and_then(|x| x.as_u64()).map(|n| (n as usize).min(b.len()));
             let werr = match split {
                 Some(n) => {
@@ -746,6 +1118,7 @@ async fn run_scenario(sc: Value, env: Arc<Env>) -> Value {
         replies: Mutex::new(replies),
         default_reply: sc.get("default_reply").cloned().unwrap_or(json!({})),
         notify: Notify::new(),
+        capture: sc.get("upstream_capture").and_then(|x| x.as_u64()).map(|n| n as usize),
     });
     *CURRENT.lock().unwrap() = Some(rec.clone());
 
@@ -869,9 +1242,9 @@ async fn run_scenario(sc: Value, env: Arc<Env>) -> Value {
         upstream.insert(m.clone(), json!([]));
     }
     for c in rec.conns.lock().unwrap().iter() {
-        let item = json!({"peer_port": c.peer_port, "nbytes": c.bytes.len(), "bytes_b64": b64e(&c.bytes),
+        let item = json!({"peer_port": c.peer_port, "nbytes": c.total, "bytes_b64": b64e(&c.bytes),
                           "requests": c.requests.iter().map(|(a, b, e)| json!([a, b, e])).collect::<Vec<_>>(),
-                          "replies": c.replies, "closed": c.closed});
+                          "replies": c.replies, "closed": c.closed, "request_info": c.infos});
         upstream.get_mut(&c.host).and_then(|v| v.as_array_mut()).map(|a| a.push(item));
     }
     let stray = std::mem::take(&mut *STRAY.lock().unwrap());
